@@ -1,0 +1,12 @@
+//go:build verif
+
+package graph
+
+// VerifYield, when set, is called at the traversal's yield points (verification builds only).
+var VerifYield func(point, key string)
+
+func verifYield(point, key string) {
+	if f := VerifYield; f != nil {
+		f(point, key)
+	}
+}
